@@ -37,8 +37,13 @@ def atom(rnd):
         return cset(rng(a, b)) if rnd.random() < 0.5 else cset(a, b)
     if t < 0.85:
         return ANY
-    if t < 0.93:
+    if t < 0.9:
         return diff(ANY, c(rnd.choice(ALPHA)))
+    if t < 0.94:
+        return diff(cset(rng("a", "c")), cset(rnd.choice(ALPHA)))
+    if t < 0.97:
+        # a class with more than nine ranges (search-table path of the generated code); 'a'..'c' are members, '~' is above the last range
+        return cset(rng("0", "1"), rng("3", "4"), rng("6", "7"), rng("A", "B"), rng("D", "E"), rng("G", "H"), rng("J", "K"), rng("M", "N"), rng("P", "Q"), rng("a", "c"), rng("x", "z"))
     return cset(rng("a", "c"), rnd.choice(ALPHA))
 
 
@@ -66,7 +71,7 @@ def nonnull(rnd, depth):
 
 
 def rule(rnd, kinds, other=None):
-    re_ = nonnull(rnd, 2)
+    re_ = nonnull(rnd, 3 if rnd.random() < 0.3 else 2)
     ends_in_eof = False
     if rnd.random() < 0.12:
         re_ = cat(re_, EOF)
@@ -75,7 +80,8 @@ def rule(rnd, kinds, other=None):
     # (a rule that ends in `$` gets no right context: the generated reference models end-of-input as one symbol that `$` reads, which is
     # exact for `$` at the tail of a rule OR of a context but not for both at once; the real lexer accepts `re $ > $`, correctly)
     if not ends_in_eof and rnd.random() < 0.2:
-        ctx = nonnull(rnd, 1) if rnd.random() < 0.8 else EOF
+        t = rnd.random()
+        ctx = EOF if t < 0.15 else (cat(nonnull(rnd, 1), EOF) if t < 0.25 else nonnull(rnd, 2 if t < 0.7 else 1))
     kind = rnd.choice(kinds)
     if kind in ("switch", "switch_return") and other:
         return R(re_, kind, ctx=ctx, to=other)
@@ -94,16 +100,22 @@ def make(seed, count):
             rules = [rule(rnd, ["tok"]) for _ in range(rnd.randint(2, 4))]
             out.append(flat(name, rules, ["C01", "C02", "C04", "C05", "C07", "C08", "C09"], N=6, m=1))
         elif shape < 0.8:
-            kinds = ["return", "return", "skip", "continue", "reset_continue", "ok", "err"]
+            kinds = ["return", "return", "skip", "continue", "reset_continue", "reset_return", "ok", "err"]
             rules = [rule(rnd, kinds) for _ in range(rnd.randint(2, 4))]
             if not any(r["kind"] in ("return", "ok") for r in rules):
                 rules.append(R(c(rnd.choice(ALPHA)), "return"))
             out.append(flat(name, rules, ["C10", "C06", "C07", "C01"], N=6, m=4))
         else:
-            kinds = ["return", "return", "switch", "switch_return", "skip"]
-            a = [rule(rnd, kinds, "B") for _ in range(rnd.randint(2, 3))]
-            b = [rule(rnd, kinds, "Init") for _ in range(rnd.randint(1, 3))]
-            if not any(r["kind"] in ("switch", "switch_return") for r in a):
-                a.append(R(c("c"), "switch_return", to="B"))
-            out.append(multi(name, [("Init", a), ("B", b)], ["C03", "C08", "C05", "C01"], N=6, m=4))
+            kinds = ["return", "return", "switch", "switch_return", "skip", "err", "ok"]
+            names = ["Init", "B"] + (["C"] if rnd.random() < 0.35 else [])
+            if rnd.random() < 0.12:
+                names = ["Init"] + ["S%d" % k for k in range(1, 10)]      # ten rule sets: the table-driven switch of the generated code
+            sets = []
+            for sn in names:
+                others = [x for x in names if x != sn]
+                rules = [rule(rnd, kinds, rnd.choice(others)) for _ in range(rnd.randint(1, 3) if len(names) <= 3 else 1)]
+                if sn == "Init" and not any(r["kind"] in ("switch", "switch_return") for r in rules):
+                    rules.append(R(c("c"), "switch_return", to=rnd.choice(others)))
+                sets.append((sn, rules))
+            out.append(multi(name, sets, ["C03", "C08", "C05", "C01", "C07"], N=6, m=4))
     return out
